@@ -1,5 +1,5 @@
 (* Scan/GoTypesRun.v — C16 model evaluated on what was observed on the implementation. *)
-From GS Require Import Base.Str Base.Json Scan.GoTypes.
+From GS Require Import Base.Str Base.Json Scan.GoTypes Scan.Embed.
 
 Fixpoint scanned_eqb (a b : scanned) {struct a} : bool :=
   match a, b with
@@ -71,12 +71,48 @@ Fixpoint run_docs (t : gotype) (i : N) (l : list (json * bool * bool)) : list N 
   end.
 Definition run_d (c : dcase) : list N := run_docs (d_type c) 0 (d_docs c).
 
-Inductive anycase := CE (c : ecase) | CD (c : dcase).
+(* a struct declaration with embedded structs: the values list one value per reachable field, in declaration order
+   (visible or not); the model keeps those encoding/json sees *)
+Record scase := { s_fields : list sfield; s_scanned : scanned;
+                  s_vals : list (list gval * json * bool);          (* field values, observed encoding, accepted *)
+                  s_docs : list (json * bool * bool) }.              (* document, accepted by the definition, decodes *)
+Definition pick (es : list (nat * fld)) (vs : list gval) : list gval :=
+  map snd (filter (fun p => dominant es (fst p)) (combine es vs)).
+Fixpoint run_svals (fs : list sfield) (i : N) (l : list (list gval * json * bool)) : list N :=
+  match l with
+  | [] => []
+  | (vs, j, acc) :: r =>
+      let es := entries_f 0 (SE fs) in
+      let v := VStruct (pick es vs) in
+      (if Nat.eqb (length vs) (length es) then [] else [(4000 + i)%N]) ++
+      (if json_eqb (norm_json (encode (go_struct fs) v)) (norm_json j) then [] else [(10 + i)%N]) ++
+      (if Bool.eqb (sval (scan_emb fs) j) acc then [] else [(1000 + i)%N]) ++
+      (if has_type (go_struct fs) v then [] else [(2000 + i)%N]) ++
+      run_svals fs (i + 1) r
+  end.
+Fixpoint run_sdocs (fs : list sfield) (i : N) (l : list (json * bool * bool)) : list N :=
+  match l with
+  | [] => []
+  | (j, acc, dec) :: r =>
+      (if Bool.eqb (sval (scan_emb fs) j) acc then [] else [(5000 + i)%N]) ++
+      (if Bool.eqb (decodes (go_struct fs) j) dec then [] else [(6000 + i)%N]) ++
+      run_sdocs fs (i + 1) r
+  end.
+Definition run_s (c : scase) : list N :=
+  (if scanned_eqb (norm_scanned (scan_emb (s_fields c))) (norm_scanned (s_scanned c)) then [] else [1%N]) ++
+  run_svals (s_fields c) 0 (s_vals c) ++ run_sdocs (s_fields c) 0 (s_docs c).
+
+Inductive anycase := CE (c : ecase) | CD (c : dcase) | CS (c : scase).
+
+(* how many declarations lie in the domain of the agreement theorem (C16_embedding_agree) *)
+Definition in_domain (l : list anycase) : nat * nat :=
+  (length (filter (fun c => match c with CS c => ewf (s_fields c) | _ => false end) l),
+   length (filter (fun c => match c with CS _ => true | _ => false end) l)).
 Fixpoint run_cases_from (i : N) (l : list anycase) : list (N * list N) :=
   match l with
   | [] => []
   | c :: r =>
-      let d := match c with CE c => run_e c | CD c => run_d c end in
+      let d := match c with CE c => run_e c | CD c => run_d c | CS c => run_s c end in
       match d with [] => run_cases_from (i + 1) r | _ => (i, d) :: run_cases_from (i + 1) r end
   end.
 Definition run_cases (l : list anycase) : list (N * list N) := run_cases_from 0 l.
